@@ -642,6 +642,17 @@ class Runner:
         ev["out_before"], ev["out_after"] = before, after
 
 
+    def do_ToDevice(self, a, ev):
+        with torch.no_grad():
+            before = [out_proj(self.model(x)) for x in (self.inputs["x1"], self.inputs["x2"])]
+        pb = project_model(self.model)
+        self.model = self.model.to(torch.device("cpu"))
+        with torch.no_grad():
+            after = [out_proj(self.model(x)) for x in (self.inputs["x1"], self.inputs["x2"])]
+        ev["out_before"], ev["out_after"] = before, after
+        ev["mods_before"] = pb
+
+
 def run_skeleton(sk, dtype_name, nested):
     return Runner(sk, dtype_name, nested).run()
 
